@@ -117,3 +117,39 @@ func BadEarlyOut(t, u *N) bool {
 	}
 	return true
 }
+
+// comparisons delegated to helpers that are handed the two slices
+func sameBytes(a, b []byte, n int) bool {
+	for i := 0; i < n; i++ {
+		if a[i] != b[i] {
+			return false
+		}
+	}
+	return true
+}
+
+func sameLinks(a, b []*N) bool {
+	for i := range a {
+		if a[i] != b[i] {
+			return false
+		}
+	}
+	return true
+}
+
+func sameLinksButFirst(a, b []*N) bool {
+	for i := 1; i < len(a); i++ {
+		if a[i] != b[i] {
+			return false
+		}
+	}
+	return true
+}
+
+func GoodHelpers(t, u *N) bool {
+	return t.final == u.final && len(t.links) == len(u.links) && sameBytes(t.labels, u.labels, len(t.links)) && sameLinks(t.links, u.links)
+}
+
+func BadHelperSkipsFirst(t, u *N) bool {
+	return t.final == u.final && len(t.links) == len(u.links) && sameBytes(t.labels, u.labels, len(t.links)) && sameLinksButFirst(t.links, u.links)
+}
